@@ -51,14 +51,14 @@ def main():
         named = OrderedDict((f"a{i}", None) for i in range(nargs))
         return FunctionInteractions(FunctionArgContext(named, None), "b" + sig, sig, [], list(children), path, None, list(loads))
 
-    def gen(depth, pool, counter):
+    def gen(depth, pool, counter, widths=(0, 1, 2, 2, 3), top=None):
         if pool and rng.random() < 0.3:
             return rng.choice(pool)
         counter[0] += 1
         sig = f"s{counter[0]}"
-        nch = 0 if depth == 0 else rng.choice([0, 1, 2, 2, 3])
+        nch = 0 if depth == 0 else rng.choice(top if top is not None else widths)
         kept_before = [n.store_path for n in pool if n.store_path]
-        children = [gen(depth - 1, pool, counter) for _ in range(nch)]
+        children = [gen(depth - 1, pool, counter, widths) for _ in range(nch)]
         path = f"/p{sig[1:]}" if rng.random() < 0.6 else None
         loads = [rng.choice(kept_before)] if path and kept_before and rng.random() < 0.25 else []
         node = mk(sig, path, rng.choice([0, 0, 1]), children, loads)
@@ -113,6 +113,29 @@ def main():
         if cyc(edges) and len(out["cyclic"]) < 3:
             out["cyclic"].append({"tree": dump(root), "edges": [[e.from_path, e.to_path, int(e.edge_type)] for e in g.deps]})
         if it < payload.get("sample", 0):
+            out["sample"].append({"tree": dump(root), "refs": sorted(refs.items()), "nodes": sorted(str(n.path) for n in g.fnodes),
+                                  "edges": sorted([str(e.from_path), str(e.to_path), {1: "solid", 2: "dotted", 3: "dashed"}[int(e.edge_type)]] for e in g.deps)})
+    # wide batch (own random stream, so that the trees above do not move): a function with 5..12 sub-interactions, some of them shared with
+    # (= dependencies of) their siblings' sub-trees - the fan-out of a kept function is a dimension of its own
+    rng = random.Random(payload["seed"] * 17 + 3)
+    out["wide_trees"], out["widest"] = 0, 0
+    for it in range(0 if "unsupported" in out else max(40, payload["n"] // 10)):
+        pool, counter = [], [0]
+        root = gen(rng.choice([2, 3]), pool, counter, widths=(0, 1, 2, 2), top=list(range(5, 13)))
+        refs = {n.store_path: n.fun_return_sig for n in pool if n.store_path}
+        out["trees"] += 1
+        out["wide_trees"] += 1
+        out["widest"] = max(out["widest"], len(root.parsed_body))
+        try:
+            g = call_structure(root, refs)
+        except BaseException as e:  # noqa
+            if len(out["errors"]) < 3:
+                out["errors"].append({"tree": dump(root), "error": type(e).__name__ + ": " + str(e)[:100]})
+            continue
+        edges = [(e.from_path, e.to_path) for e in g.deps]
+        if cyc(edges) and len(out["cyclic"]) < 3:
+            out["cyclic"].append({"tree": dump(root), "edges": [[e.from_path, e.to_path, int(e.edge_type)] for e in g.deps]})
+        if it < max(30, payload.get("sample", 0) // 4):
             out["sample"].append({"tree": dump(root), "refs": sorted(refs.items()), "nodes": sorted(str(n.path) for n in g.fnodes),
                                   "edges": sorted([str(e.from_path), str(e.to_path), {1: "solid", 2: "dotted", 3: "dashed"}[int(e.edge_type)]] for e in g.deps)})
     # second batch: a kept node may take the path of an earlier kept node, under its own signature (one path analysed under
